@@ -93,6 +93,17 @@ NerodeClasses(D, X) == Cardinality({{q \in X : StatesEquivalent(D, p, q)} : p \i
 PairwiseDistinguishable(D) ==
   \A p, q \in D.Q : p # q => ~StatesEquivalent(D, p, q)
 
+(* Moore's partition refinement: a third, cheap formulation of the Myhill-Nerode classes        *)
+(* (cross-checked against the other two in Lemmas.tla; used where a model evaluates the classes  *)
+(* in millions of states)                                                                        *)
+RECURSIVE MooreFix(_, _)
+MooreFix(D, P) ==
+  LET Blk(q) == CHOOSE B \in P : q \in B
+      Same(p, q) == Blk(p) = Blk(q) /\ \A a \in D.S : Blk(Delta(D, p, a)) = Blk(Delta(D, q, a))
+      P2 == {{q \in D.Q : Same(p, q)} : p \in D.Q}
+  IN IF P2 = P THEN P ELSE MooreFix(D, P2)
+MoorePartition(D) == MooreFix(D, {D.F, D.Q \ D.F} \ {{}})
+
 (* word-based Myhill-Nerode test (independent of FaEquiv): p ~ q iff no word  *)
 (* shorter than |Q| separates them                                           *)
 RECURSIVE DeltaStar(_, _, _)
